@@ -65,7 +65,74 @@ func ignoredCall(name string) bool {
 	return false
 }
 
+// call executes one call instruction and then the ghost assignments anchored after it.
 func (g *gen) call(x *ssa.Call, st State, reach string) string {
+	reach = g.call0(x, st, reach)
+	if g.fc != nil && len(g.fc.GhostSets) > 0 && !g.isInline {
+		name := calleeName(&x.Call)
+		nth := g.count("gset." + name)
+		var results []Val
+		if rv, ok := g.vals[x]; ok {
+			if tt, ok := x.Type().(*types.Tuple); ok {
+				for i := 0; i < tt.Len(); i++ {
+					results = append(results, Val{T: fmt.Sprintf("(%s..%d %s)", rv.S, i, rv.T), S: g.ctx.sortOf(tt.At(i).Type()), GoT: tt.At(i).Type()})
+				}
+			} else {
+				results = []Val{rv}
+			}
+		}
+		g.applyGhostSets(false, name, nth, results, st)
+	}
+	return reach
+}
+
+// applyGhostSets runs the ghost assignments (`set G = E ...`) of the function under verification that are
+// anchored at this point. The assigned ghost must be listed in the function's modifies clause, so that
+// callers see it change.
+func (g *gen) applyGhostSets(entry bool, callee string, nth int, results []Val, st State) {
+	if g.fc == nil || g.isInline {
+		return
+	}
+	for _, gs := range g.fc.GhostSets {
+		if gs.AtEntry != entry {
+			continue
+		}
+		if !entry && (strings.TrimPrefix(gs.Callee, "(") != strings.TrimPrefix(callee, "(") || gs.Nth != nth) {
+			continue
+		}
+		cl := Clause{Label: "set." + gs.Name, Src: gs.Src, File: gs.File, Line: gs.Line}
+		if _, ok := g.cs.GhostVars[gs.Name]; !ok {
+			g.contractError(cl, fmt.Errorf("set: %q is not a ghost var", gs.Name))
+			continue
+		}
+		listed := false
+		for _, m := range g.fc.Modifies {
+			if m == gs.Name {
+				listed = true
+			}
+		}
+		if !listed {
+			g.contractError(cl, fmt.Errorf("set: ghost %q must be listed in modifies", gs.Name))
+			continue
+		}
+		e := g.newEnv(st, g.entry)
+		e.results = results
+		v, err := g.elab1(gs.E, e)
+		if err != nil {
+			g.contractError(cl, err)
+			continue
+		}
+		comp := g.ghostComp(gs.Name)
+		if v.S != g.ctx.compSort[comp] {
+			g.contractError(cl, fmt.Errorf("set: %s has sort %s, expression has %s", gs.Name, g.ctx.compSort[comp], v.S))
+			continue
+		}
+		g.stSet(st, comp, v.T)
+		g.ghostSetsApplied++
+	}
+}
+
+func (g *gen) call0(x *ssa.Call, st State, reach string) string {
 	c := &x.Call
 	name := calleeName(c)
 	// builtins
